@@ -96,11 +96,13 @@ def _c06_init_abs(v, rec):
 
 @mechanism("C16-discounted-near-singular-rank-test")
 def _c16_rank(v, rec):
-    """gamma < 1, converged=True, and the reported gain is clearly non-zero although a discounted
-    problem has gain 0: independent_row_indices() judged an independent row of (gamma*P - I) dependent
-    (np.isclose(det, 0) with an absolute tolerance), so the linear system was under-determined."""
+    """gamma < 1, converged=True, and independent_row_indices() was OBSERVED (probe on the function, last call of
+    the run) to keep fewer rows of (gamma*P - I) than are linearly independent (np.isclose(det, 0) with an absolute
+    tolerance judges an independent row dependent), so the linear system that produced the reported values was
+    under-determined. (A clearly non-zero reported gain - a discounted problem has gain 0 - is the usual symptom,
+    but the values can be off with a tiny gain too.)"""
     f = v.get("facts", {})
-    return (f.get("gamma", 1.0) < 1.0 and f.get("max_abs_reported_gain", 0.0) > 1e-6
+    return (f.get("gamma", 1.0) < 1.0 and (f.get("rank_test_dropped_rows") or 0) >= 1
             and v["clause"] in ("state_value!=optimal-discounted-value", "returned-policy-not-value-optimal"))
 
 
@@ -130,6 +132,6 @@ def _c09_abs(v, rec):
     absorbing states, AND equals the reference computed on the raw dynamics."""
     f = v.get("facts", {})
     c = v["clause"]
-    if not (c.startswith("evaluator!=expected-return") or c.endswith(":reported-value!=exact-evaluation-of-returned-controller")):
+    if not ((c.startswith("evaluator") and "!=expected-return" in c) or c.endswith(":reported-value!=exact-evaluation-of-returned-controller")):
         return False
     return bool(f.get("live_absorbing")) and bool(f.get("equals_reference_without_absorption"))
